@@ -12,6 +12,7 @@ type Options struct {
 	MaxHD    int
 	Flat     bool // single-line forms only (no NL inside compound lists)
 	NoNested bool // no command substitutions
+	HDBias   bool // prefer here-documents among redirections
 }
 
 type G struct {
@@ -109,8 +110,8 @@ func (g *G) cmd(parent string) *Cmd {
 
 func (g *G) simple() *Cmd {
 	c := &Cmd{K: "simple"}
-	for g.p(1, 5) && len(c.Pre) < 3 {
-		if g.p(1, 2) {
+	for (g.p(1, 5) || (g.O.HDBias && g.p(1, 4))) && len(c.Pre) < 3 {
+		if g.p(1, 2) && !g.O.HDBias {
 			c.Pre = append(c.Pre, Item{A: &Assign{Name: pickS(g, varNames), W: g.word(true)}})
 		} else {
 			c.Pre = append(c.Pre, Item{R: g.redir()})
@@ -138,7 +139,7 @@ func (g *G) redir() *Redir {
 	if g.p(1, 4) {
 		r.N = pickS(g, []string{"0", "1", "2", "3", "10"})
 	}
-	if g.O.Heredocs && g.nhd < g.O.MaxHD && g.inWord <= 1 && g.p(1, 3) {
+	if g.O.Heredocs && g.nhd < g.O.MaxHD && g.inWord <= 1 && (g.p(1, 3) || (g.O.HDBias && g.p(2, 3))) {
 		g.nhd++
 		r.HD = g.heredoc()
 		r.Op = "<<"
